@@ -27,7 +27,7 @@ extend_error_class extend_shortcut_unchecked pc_availability pc_rejects_iff
 pc_availability_agrees_with_cache pc_infidelity_identity_component deriv_shape_rejects_iff
 cumulant_rejects_iff convergence_rejects_iff'''.split()
 LEAN_MODULES = ['FFVerif.Props.C20']
-PINS = ['pinParseArgs', 'pinParseHamiltonian', 'pinParseOperators', 'pinParseSpectrum', 'pinGetIndices', 'pinHashArray', 'pinAllArrayEqual']
+PINS = ['pinParseArgs', 'pinParseHamiltonian', 'pinParseOperators', 'pinParseSpectrum', 'pinGetIndices', 'pinHashArray', 'pinAllArrayEqual', 'pinConcatenateHamiltonian']
 GEN_SITES = ['options']
 COMPONENTS = ['validate_args', 'validate_spectrum', 'validate_identifiers', 'validate_extend',
               'validate_concat', 'validate_basis', 'validate_remap', 'validate_pc',
@@ -854,6 +854,16 @@ def corruptions_compose(rng):
         A, B = gens.build(dA), gens.build(dB)
         return (lambda: ff.concatenate([A, B])), {'ValueError'}
 
+    def c_nonconst_small():
+        # the same, with sensitivities that differ by little in absolute or relative terms
+        lo, hi = [(1e-9, 5e-9), (1.0, 1.000005), (3e-7, 3.00002e-7)][int(rng.integers(0, 3))]
+        dA = rd(rng, d=2, n_dt=2, n_c=1, n_n=2)
+        dA['n_coeffs'][1] = [lo, hi]
+        dB = rd(rng, d=2, n_dt=2, n_c=1, n_n=1)
+        dB['n_opers'], dB['n_ids'] = dA['n_opers'][:1].copy(), dA['n_ids'][:1]
+        A, B = gens.build(dA), gens.build(dB)
+        return (lambda: ff.concatenate([A, B])), {'ValueError'}
+
     def one(n_dt=2):
         return gens.build(rd(rng, d=2, n_dt=n_dt, n_c=1, n_n=1))
 
@@ -953,7 +963,7 @@ def corruptions_compose(rng):
         return (lambda: A.get_filter_function_derivative(om, n_coeffs_deriv=np.ones(shp))), {'ValueError'}
 
     return [(f.__name__, f) for f in
-            (c_dim, c_basis, c_two_ids, c_two_ids_signed_zero, c_force_no_omega, c_pc_no_omega, c_not_pulse, c_nonconst,
+            (c_dim, c_basis, c_two_ids, c_two_ids_signed_zero, c_force_no_omega, c_pc_no_omega, c_not_pulse, c_nonconst, c_nonconst_small,
              e_clash, e_dt, e_dim, e_small_N, e_dup_add, e_add_clash, e_ff_no_omega, s_shape, s_nonherm,
              i_unknown, o_unknown, pc_not_computed, pc_other_freq, slice_empty, deriv_shape)]
 
